@@ -17,7 +17,7 @@ for p in props:
         'evidence_file': 'evidence/%s.json' % p['id'], 'replay_cmd_template': './check %s --replay {path}' % p['id'], 'engine': 'ir2c+cbmc',
         'level_claimed': {'category': getattr(mod, 'LEVEL', 'model_checking'),
                           'text': getattr(mod, 'LEVEL_TEXT', 'bounded symbolic checking of the real code: every query is a SAT/SMT decision over ALL values inside the bounds stated in the evidence file (sizes, unwindings, threads), with unwinding assertions and reachability witnesses; nothing is claimed outside those bounds'),
-                          'design_ref': 'DESIGN.md section 4 (%s)' % p['id']},
+                          'design_ref': 'DESIGN.md Part A (A.2 row and A.3/A.4 notes for %s; Part B section 4 is the original design)' % p['id']},
         'level_note': 'trusted: clang-14 -O1 lowering, ir2c (validated differentially against the g++ build of the real headers on every run), CBMC 6.11 with cadical/z3, the harness invariants/reference models/stubs listed under assumptions in the evidence',
         'technique': getattr(mod, 'TECHNIQUE', 'CBMC bounded model checking of clang-lowered code (LLVM IR -> C translation)')})
 m = {'version': 1, 'setup_cmd': './setup.sh',
